@@ -16,6 +16,7 @@ package generator
 
 import (
 	"errors"
+	"path"
 
 	"github.com/go-openapi/swag"
 )
@@ -111,6 +112,12 @@ func (c *clientGenerator) Generate() error {
 	}
 
 	if c.GenOpts.IncludeSupport {
+		if c.GenOpts.IncludeCLi {
+			// the cli templates refer to the client package as "client", whatever --client-package names it
+			app.DefaultImports[defaultClientTarget] = path.Join(
+				c.GenOpts.LanguageOpts.baseImport(c.Target),
+				c.GenOpts.LanguageOpts.ManglePackagePath(c.ClientPackage, defaultClientTarget))
+		}
 		if err := c.GenOpts.renderApplication(&app); err != nil {
 			return err
 		}
